@@ -235,8 +235,13 @@ func expError(b *ref.Builder, key string, err error) (string, bool) {
 				continue
 			}
 			sub := ref.NewBuilder()
-			expError(sub, "error", c)
+			needle, failed := expError(sub, "error", c)
 			arr.Elems = append(arr.Elems, sub.Root())
+			if failed {
+				// a cause that cannot be rendered: contained, the list ends there, reported under <key>Error
+				b.Add(key+"Causes", arr)
+				return needle, true
+			}
 		}
 		b.Add(key+"Causes", arr)
 		return "", false
@@ -276,6 +281,21 @@ func (g *G) genError(depth int, allowPanic bool) (error, string) {
 			if r.P(1, 5) {
 				errs = append(errs, nil)
 				desc += "nil,"
+				continue
+			}
+			if allowPanic && depth == 0 && r.P(1, 4) {
+				// a hostile cause among healthy ones: a nil pointer of an error type, or (when faults are
+				// generated at all) a cause whose Error method panics
+				if g.fault() {
+					g.tag("error:cause-panics")
+					m := "causepanic-" + g.Str()
+					errs = append(errs, panicErr{m})
+					desc += fmt.Sprintf("panicErr(%q),", m)
+				} else {
+					g.tag("error:cause-nilptr")
+					errs = append(errs, (*valErr)(nil))
+					desc += "(*valErr)(nil),"
+				}
 				continue
 			}
 			e, d := g.genError(depth+1, false)
@@ -562,10 +582,7 @@ func (g *G) Scalar(key string) FieldCase {
 		return mk(zap.Stringer(key, okStringer{v}), okStringer{v}, ref.Str(v), fmt.Sprintf("Stringer=%q", v))
 	case 25, 26: // error
 		err, d := g.genError(0, true)
-		_, fails := err.(panicErr)
-		if _, pc := err.(panicCauses); pc {
-			fails = true
-		}
+		_, fails := expError(ref.NewBuilder(), key, err)
 		g.tag("error")
 		f := zap.NamedError(key, err)
 		if useAny {
